@@ -5326,3 +5326,12 @@ M('C18', 'created-read-as-local-time', PK, "        self.created = datetime.from
 M('C18', 'created-octets-little-endian', PK, "    def created_bin(self, val):\n        self.created = self.bytes_to_int(val)", "    def created_bin(self, val):\n        self.created = self.bytes_to_int(val, 'little')", 'C18.5')
 M('C18', 'created-datetime-truncated-to-day', PK, "            warnings.warn(\"Passing TZ-naive datetime object to PubKeyV4 packet\")\n        self._created = val", "            warnings.warn(\"Passing TZ-naive datetime object to PubKeyV4 packet\")\n        self._created = val.replace(hour=0, minute=0, second=0)", 'C18.5')
 M('C18', 'fp-length-from-header-for-public', PK, "        plen = self.keymaterial.publen()\n        bcde_len = self.int_to_bytes(6 + plen, 2)", "        plen = self.keymaterial.publen()\n        bcde_len = self.int_to_bytes(self.header.length if self.public else 6 + plen, 2)", 'C18.1')
+# ---- wave 6
+M('C14', 'llen-widening-strict', TY, "            while 0 < llen < 4 and self.length >= (1 << (8 * llen)):", "            while 0 < llen < 4 and self.length > (1 << (8 * llen)):", 'C14.8')
+M('C14', 'armor-crc-width-dropped', TY, "PGPObject.int_to_bytes(self.crc24(self.__bytes__()), 3)", "PGPObject.int_to_bytes(self.crc24(self.__bytes__()))", 'C14.8')
+M('C14', 'userid-fallback-forgotten', PK, "            self.uid = uid_bytes.decode('charmap')\n            self._encoding_fallback = True\n", "            self.uid = uid_bytes.decode('charmap')\n", 'C14.8')
+M('C14', 'userid-fallback-latin-replace', PK, "            self.uid = uid_bytes.decode('charmap')\n            self._encoding_fallback = True\n", "            self.uid = uid_bytes.decode('utf-8', 'replace')\n", 'C14.8')
+T('C14', 'twin-userid-fallback-flag-first', PK, "            self.uid = uid_bytes.decode('charmap')\n            self._encoding_fallback = True\n", "            self._encoding_fallback = True\n            self.uid = uid_bytes.decode('charmap')\n")
+M('C20', 'new-contents-by-reference', PGP, "            lit._contents = bytearray(msg.text_to_bytes(message))\n", "            lit._contents = msg.text_to_bytes(message)\n", 'C20.6')
+T('C20', 'twin-new-contents-temporary-copy', PGP, "            lit._contents = bytearray(msg.text_to_bytes(message))\n", "            octets = msg.text_to_bytes(message)\n            lit._contents = bytearray(octets)\n")
+M('C20', 'new-contents-charset-hint', PGP, "            lit._contents = bytearray(msg.text_to_bytes(message))\n", "            lit._contents = bytearray(msg.text_to_bytes(message).decode('utf-8').encode(charset or 'utf-8')) if charset else bytearray(msg.text_to_bytes(message))\n", 'C20.6')
